@@ -901,6 +901,13 @@ type semOutcome struct {
 
 // features lists the constructs a program uses (go/ast walk of main); used to group failures.
 func features(src string) []string {
+	if isScopingProgram(src) {
+		fs := shadowFeatures(src)
+		for i := range fs {
+			fs[i] = "scoping:" + fs[i]
+		}
+		return fs
+	}
 	f := map[string]bool{}
 	fset := token.NewFileSet()
 	file, err := parser.ParseFile(fset, "p.go", src, 0)
@@ -1123,7 +1130,7 @@ func part2(run *vlib.Run, bt *built) bool {
 	t0 := time.Now()
 	deadline := 70 * time.Second
 	if run.Thorough() {
-		deadline = 11*time.Minute + 30*time.Second
+		deadline = 12*time.Minute + 30*time.Second
 	}
 	var progs []*semProg
 	var planDescr []string
@@ -1133,6 +1140,9 @@ func part2(run *vlib.Run, bt *built) bool {
 			progs = append(progs, &semProg{Rsize: rs, Size: 2, Alpha: "rejected-operators", Source: sourceOf(body, rs), Expect: "rejected"})
 		}
 	}
+	shp, shd := shadowPrograms(run.Thorough())
+	progs = append(progs, shp...)
+	planDescr = append(planDescr, shd...)
 	for _, pl := range semPlans(run.Thorough()) {
 		en := newEnumerator(pl.Alpha)
 		for _, n := range pl.Sizes {
@@ -1273,6 +1283,7 @@ func part2(run *vlib.Run, bt *built) bool {
 	run.Set("part2_compared_ok", counts["ok"])
 	run.Set("part2_distinct_output_traces", len(distinct))
 	run.Set("part2_enumeration", planDescr)
+	run.Set("part2_shadowing_family", "block scoping: outer variable V (a = memory, reg_b = register), block kinds {bare, if body, else body, for body} x {redeclares V, does not} x PRE {V = 5 (thorough: also none)} x INNER = all sequences of 1..2 statements of {V = 1, V = V + 2, V++, IOWrite(o0, V)} x POST {IOWrite; V++ IOWrite (thorough: also V = V + 2 IOWrite; IOWrite V = 1 IOWrite)} (quick: the non-redeclaring control only for the bare block); two levels: block {[var V] s1 {[var V] s2 IOWrite} IOWrite} IOWrite with s1 in {V = 1, V++}, s2 in {V = 3, V = V + 2, V++}, all four redeclaration combinations (quick: outer block bare; thorough: all four kinds); 16 bit: bare and for body, redeclared, one inner statement")
 	run.Set("part2_bounds", "all canonical programs (last statement writes an output; no assignment that is immediately overwritten) with exactly `size` statements (nested ones counted) over the named statement alphabet: variables a (memory) and reg_b (register) of type uintN, assignments of constants / the other variable / + / * / bondgo.IORead / a function call, ++/--, bondgo.IOWrite to one or two outputs, if / if-else with == conditions, two bounded for loops; plus one program per binary operator the compiler refuses (- & | ^ / <<)")
 	run.Set("part2_wall_s", time.Since(t0).Seconds())
 	if capHit {
@@ -1554,13 +1565,21 @@ func subset(a, b []string) bool {
 	return true
 }
 
+// isScopingProgram: the program declares a variable inside a nested block or has a bare block.
+func isScopingProgram(src string) bool {
+	return strings.Contains(src, "\t\tvar ") || strings.Contains(src, "\n\t{\n") || strings.Contains(src, "\n\t\t{\n")
+}
+
 func bodyOf(src string) string {
 	i := strings.Index(src, "func main()")
 	var out []string
 	for _, l := range strings.Split(src[i:], "\n")[1:] {
 		t := strings.TrimSpace(l)
-		if t == "" || strings.HasPrefix(t, "var ") || strings.Contains(t, "bondgo.Make") {
+		if t == "" || strings.HasPrefix(l, "\tvar ") || strings.Contains(t, "bondgo.Make") {
 			continue
+		}
+		if strings.HasPrefix(t, "var ") {
+			t += ";"
 		}
 		out = append(out, t)
 	}
